@@ -320,6 +320,18 @@ def part_comparator(ctx, eng, NCH):
     eng.stub(r'VersionChunkIter::<.*>::new$|VersionChunkIter::new$', new_stub, 'VersionChunkIter::new(ident) = the harness chunk list for that operand (chunking is part (a))')
     eng.stub(r'zip_longest::<', lambda e, s, a, c: Tup([a[0], a[1]], 'ZipLongest'), 'Itertools::zip_longest')
 
+    def chunk_next(eng_, st_, args, ci):
+        it = eng_.read_ref(st_, args[0])
+        if not (isinstance(it, Tup) and it.name == 'OwnedIter'):
+            return NotImplemented
+        seq = eng_.read_ref(st_, it.items[0])
+        p_ = it.items[1].concrete()
+        if p_ < len(seq.items):
+            eng_.write_ref(st_, args[0], Tup([it.items[0], bv_const(p_ + 1, 'usize')], 'OwnedIter'))
+            return some(seq.items[p_])
+        return NONE
+    eng.stub(r'VersionChunkIter<.*> as (std::iter::)?Iterator>::next$', chunk_next, 'VersionChunkIter::next on a harness chunk list = the next chunk of the list (chunking itself is part (a))')
+
     def zl_next(eng_, st_, args, ci):
         z = eng_.read_ref(st_, args[0])
         ia, ib = z.items
